@@ -116,6 +116,7 @@ type Clause struct {
 	Label string
 	Expr  ast.Expr
 	Text  string
+	Cover bool // `at call … cover`: a reachability requirement (the call is reached in a state satisfying Expr), not an obligation on every state
 }
 
 var labelRe = regexp.MustCompile(`^\[([A-Za-z0-9_]+)\]\s*(.*)$`)
@@ -551,9 +552,10 @@ func parseContracts(path string, unit string) (map[string]*Contract, error) {
 				cur.AtCallDo[fields[2]] = append(cur.AtCallDo[fields[2]], gs)
 				continue
 			}
-			if len(fields) >= 5 && fields[1] == "call" && fields[3] == "before" {
+			if len(fields) >= 5 && fields[1] == "call" && (fields[3] == "before" || fields[3] == "cover") {
 				// at call <callee> before [label] <expr>: an obligation in the state right BEFORE the call
-				rest := strings.TrimSpace(line[strings.Index(line, " before ")+8:])
+				// at call <callee> cover [label] <expr>: the call must be REACHABLE in a state where <expr> holds
+				rest := strings.TrimSpace(line[strings.Index(line, " "+fields[3]+" ")+len(fields[3])+2:])
 				label := ""
 				if m := labelRe.FindStringSubmatch(rest); m != nil {
 					label, rest = m[1], m[2]
@@ -568,7 +570,7 @@ func parseContracts(path string, unit string) (map[string]*Contract, error) {
 				if label == "" {
 					label = fmt.Sprintf("before_%s%d", fields[2], len(cur.AtCallBefore[fields[2]])+1)
 				}
-				cur.AtCallBefore[fields[2]] = append(cur.AtCallBefore[fields[2]], Clause{Label: label, Expr: e, Text: rest})
+				cur.AtCallBefore[fields[2]] = append(cur.AtCallBefore[fields[2]], Clause{Label: label, Expr: e, Text: rest, Cover: fields[3] == "cover"})
 				continue
 			}
 			if len(fields) < 5 || fields[1] != "call" || fields[3] != "assert" {
